@@ -4,6 +4,7 @@ from .. import forest as FO
 
 ID = "C10"
 LEAN_MODULE = "Ucfg.Props.C10"
+LEVEL_TEXT = 'Identity-level heap model: a copy only allocates (every existing node identical afterwards: source untouched), is made of new nodes that do not point into the old heap (nothing shared), carries the requested context; list merges likewise; in-place writes are local. PARTIAL: the composition into Merge/NewFrom is driver glue compared on histories through the fingerprint hook (two thirds of generated steps), the rest decided by fingerprint oracles.'
 CORRESPONDENCE = ("Model/Forest.lean (heap of nodes with stored contexts: cpy, appendCpy, setAt, delAt, SetValue, attach, storedPath) composed by "
                   "Driver/ForestDrv.lean ~ histories over several configs dumped after every step through VerifFingerprint (build tag verif): node "
                   "identities up to renaming, stored parents and names, values, Path(), Parent()")
